@@ -29,8 +29,8 @@ NOT_PROVED = [
 ASSUMPTIONS = ["images are uniform grids (data_grid); a crop 'fits' when its window lies inside the image"]
 
 
-def mk(a, spacing=0.1, **kw):
-    return data_grid(np.asarray(a, dtype=float), spacing=spacing, medium_index=1.33, illum_wavelen=0.66,
+def mk(a, spacing=0.1, dtype=float, **kw):
+    return data_grid(np.asarray(a, dtype=dtype), spacing=spacing, medium_index=1.33, illum_wavelen=0.66,
                      illum_polarization=(1, 0), noise_sd=0.05, **kw)
 
 
@@ -120,6 +120,15 @@ def _attrs_kept(src, out):
 
 def search(ctx):
     rng = ctx.rng
+    # deterministic probe (known finding): unsigned-integer images wrap in (raw - dark) where the raw count is below the dark count
+    try:
+        ctx.tried("unsigned-probe", ("uint8",))
+        hprobe = bg_correct(mk([[5, 7], [8, 9]], dtype=np.uint8), mk([[9, 9], [9, 9]], dtype=np.uint8), mk([[6, 6], [6, 6]], dtype=np.uint8)).values.ravel()
+        if not (abs(float(hprobe[0]) - (5 - 6) / (9 - 6)) <= 1e-12):
+            ctx.violation("C18:bg-correct:unsigned-wraps", "uint8 images raw = 5, background = 9, dark = 6: bg_correct gives %r, (raw - dark)/(background - dark) = %.4f" % (float(hprobe[0]), -1 / 3),
+                          dict(kind="bg-unsigned", got=float(hprobe[0])))
+    except Exception as ex:
+        ctx.notes.append("unsigned probe raised %r" % (ex,))
     n = ctx.n(60, 600)
     for i in range(n):
         nx, ny = int(rng.integers(2, 14)), int(rng.integers(2, 14))
@@ -153,6 +162,34 @@ def search(ctx):
                 ctx.violation("C18:bg-self", "image divided by itself is not exactly 1", dict(kind="bg", **info))
             if not _attrs_kept(im, h):
                 ctx.violation("C18:bg-metadata", "bg_correct lost metadata", dict(kind="bg", **info))
+            # images as a camera or a hand-made array delivers them: integer counts (signed, unsigned) and single precision
+            if kind == "int" and nx >= 3 and ny >= 3:
+                dt = [np.int32, np.uint8, np.uint16, np.int64, np.float32, np.int16][(i // 3) % 6]
+                tl = 1e-6 if dt is np.float32 else 1e-12
+                b = a.copy()
+                pi, pj = int(rng.integers(1, nx - 1)), int(rng.integers(1, ny - 1))
+                b[pi, pj] = 0
+                b[pi - 1, pj] += 1          # make the neighbour mean a non-integer in most cases
+                want = (b[pi - 1, pj] + b[pi + 1, pj] + b[pi, pj - 1] + b[pi, pj + 1]) / 4
+                ctx.tried("dtype", (dt.__name__, nx, ny, i))
+                zfi = impl_call(lambda: zero_filter(mk(b, dtype=dt)).values[0])
+                mask = np.ones_like(b, bool)
+                mask[pi, pj] = False
+                if isinstance(zfi, tuple) or not (abs(float(zfi[pi, pj]) - want) <= tl * abs(want)) or not (np.abs(zfi.astype(float) - b)[mask].max() <= tl * np.abs(b).max()):
+                    ctx.violation("C18:zero-filter-interior:%s" % dt.__name__, "%s image: an interior dead pixel is replaced by %r, the mean of its four neighbours is %r" % (
+                        dt.__name__, zfi if isinstance(zfi, tuple) else float(zfi[pi, pj]), want), dict(kind="zero-dtype", dtype=dt.__name__, pos=[pi, pj], **info))
+                # background correction on such images: raw above dark everywhere (counts)
+                bgi = rand_img(rng, nx, ny, "int") + 20
+                dfi = rng.integers(0, 1, size=a.shape).astype(float) if i % 2 else np.floor(a * rng.uniform(0.0, 0.9, size=a.shape))
+                bgi[pi, pj] = dfi[pi, pj]          # a dead pixel of the background: (bg - dark) = 0 there
+                bgi[pi - 1, pj] += 1
+                hi = impl_call(lambda: bg_correct(mk(a, dtype=dt), mk(bgi, dtype=dt), mk(dfi, dtype=dt)).values[0])
+                den = bgi - dfi
+                den[pi, pj] = (den[pi - 1, pj] + den[pi + 1, pj] + den[pi, pj - 1] + den[pi, pj + 1]) / 4
+                refi = (a - dfi) / den
+                if isinstance(hi, tuple) or not (np.abs(hi - refi).max() <= max(tl, 1e-12) * np.abs(refi).max()):
+                    ctx.violation("C18:bg:%s" % dt.__name__, "%s images: bg_correct differs from (raw - dark)/(background - dark) with the dead background pixel interpolated (max dev %r)" % (
+                        dt.__name__, hi if isinstance(hi, tuple) else float(np.abs(hi - refi).max())), dict(kind="bg-dtype", dtype=dt.__name__, pos=[pi, pj], **info))
             # dead-pixel filter
             if nx >= 3 and ny >= 3:
                 b = a.copy()
